@@ -169,7 +169,7 @@ mod verif {
     #[kani::proof]
     #[kani::unwind(4)]
     #[kani::stub(std::time::Duration::as_secs_f32, as_secs_f32_model)]
-    fn animate_step_contract() {
+    pub(crate) fn animate_step_contract() {
         let mut s = setup();
         let old_state = s.animator.state;
         let old_pos = s.animator.timeline_position;
@@ -236,7 +236,7 @@ mod verif {
     #[kani::proof]
     #[kani::unwind(4)]
     #[kani::stub(std::time::Duration::as_secs_f32, as_secs_f32_model)]
-    fn ended_implies_terminal_values() {
+    pub(crate) fn ended_implies_terminal_values() {
         let mut s = setup();
         kani::assume(s.animator.enabled && s.tl.is_some() && s.targets.present);
         kani::assume(s.animator.state != AnimationState::Ended);
@@ -253,7 +253,7 @@ mod verif {
     #[kani::proof]
     #[kani::unwind(4)]
     #[kani::stub(std::time::Duration::as_secs_f32, as_secs_f32_model)]
-    fn ended_from_playing_holds_terminal_values() {
+    pub(crate) fn ended_from_playing_holds_terminal_values() {
         let mut s = setup();
         kani::assume(s.animator.enabled && s.tl.is_some() && s.targets.present);
         kani::assume(s.animator.state == AnimationState::Playing);
@@ -271,7 +271,7 @@ mod verif {
     #[kani::proof]
     #[kani::unwind(4)]
     #[kani::stub(std::time::Duration::as_secs_f32, as_secs_f32_model)]
-    fn animate_two_frames_lemma() {
+    pub(crate) fn animate_two_frames_lemma() {
         let mut s = setup();
         kani::assume(s.animator.enabled && s.tl.is_some());
         kani::assume(s.animator.state != AnimationState::Ended);
@@ -306,7 +306,7 @@ mod verif {
     /// C18: Animator API: reset rewinds, new/default/with_timeline start enabled at zero in None.
     #[kani::proof]
     #[kani::unwind(4)]
-    fn animator_api_contract() {
+    pub(crate) fn animator_api_contract() {
         let a: Animator<Comp> = Animator::new();
         assert!(a.enabled && a.timeline.is_none() && a.timeline_position == Duration::ZERO && a.state() == AnimationState::None);
         let d: Animator<Comp> = Animator::default();
@@ -342,7 +342,7 @@ mod verif {
     /// key without a timeline stops animation and leaves the component alone.
     #[kani::proof]
     #[kani::unwind(4)]
-    fn select_animation_step_contract() {
+    pub(crate) fn select_animation_step_contract() {
         let has0: bool = kani::any();
         let has1: bool = kani::any();
         let cur: u8 = kani::any::<u8>() & 1;
@@ -383,7 +383,7 @@ mod verif {
     /// chain has an entry for the active key; otherwise nothing changes.
     #[kani::proof]
     #[kani::unwind(4)]
-    fn chain_animations_step_contract() {
+    pub(crate) fn chain_animations_step_contract() {
         let cur: u8 = kani::any::<u8>() & 1;
         let selector = selector_with(&[(0, true), (1, true)], cur, Some(cur));
         let has_entry: bool = kani::any();
@@ -410,7 +410,7 @@ mod verif {
     /// and the state, so the step cannot depend on which animator produced the event (ghost flag).
     #[kani::proof]
     #[kani::unwind(4)]
-    fn finding_chain_ignores_which_animator_ended() {
+    pub(crate) fn finding_chain_ignores_which_animator_ended() {
         let selector = selector_with(&[(0, true), (1, true)], 0, Some(0));
         let mut chain = AnimationChain { next_keys: HashMap::new() };
         chain.next_keys.entries.push((Key(0), Key(1)));
@@ -427,7 +427,7 @@ mod verif {
     #[kani::proof]
     #[kani::unwind(4)]
     #[kani::stub(std::time::Duration::as_secs_f32, as_secs_f32_model)]
-    fn canary_must_fail() {
+    pub(crate) fn canary_must_fail() {
         let mut s = setup();
         animate_step(E, &mut s.animator, &s.time, &mut s.targets, &mut s.events);
         assert!(s.events.count == 0, "canary: deliberately false");
